@@ -30,6 +30,8 @@ fn native_misc_registry() -> Vec<(&'static str, fn(&mut crate::src::EnumSrc))> {
         ("nschema_library3", (|s: &mut crate::src::EnumSrc| crate::native_misc::schema_library3(s)) as fn(&mut crate::src::EnumSrc)),
         // n(nschema_bitvec, "C12", "WithSchema for bit_vec::BitVec (0.6, 0.8) and bit_set::BitSet (0.5, 0.8); their Serialize impls", "one value per type");
         ("nschema_bitvec", (|s: &mut crate::src::EnumSrc| crate::native_misc::schema_bitvec(s)) as fn(&mut crate::src::EnumSrc)),
+        // n(nnalgebra, "C01,C02,C04", "Serialize/Deserialize/Packed for nalgebra::Isometry3, Point3, Vector3; Vec / array bulk paths over them; derive for a repr(C) struct holding an Isometry3", "5 rotations (incl. ones whose quaternion norm is not exactly 1.0) x small-scope translations");
+        ("nnalgebra", (|s: &mut crate::src::EnumSrc| crate::native_lib::nalgebra_types(s)) as fn(&mut crate::src::EnumSrc)),
         // n(ncrypto_stream, "C08,C01", "CryptoWriter::new; CryptoWriter::write; CryptoWriter::flush; Drop for CryptoWriter; CryptoReader::new; CryptoReader::read (real ring)", "payload lengths 0..230000 (around the 100000-byte chunk size), 4 write-piece sizes; inner reader chunk sizes 1..4096 x 5 Interrupted patterns x 4 read sizes; reader/writer failure at 7-9 offsets; short-writing inner writer");
         ("ncrypto_stream", (|s: &mut crate::src::EnumSrc| crate::native_crypto::crypto_stream(s)) as fn(&mut crate::src::EnumSrc)),
         // n(ncompressed_container, "C01,C07", "savefile::save_compressed; Serializer::save_impl (bzip2 branch); Deserializer::load_impl (bzip2 branch)", "small-scope documents; every cut for files <= 160 bytes, else 12 cut points");
@@ -61,6 +63,8 @@ fn native_misc_registry0() -> Vec<(&'static str, fn(&mut crate::src::EnumSrc))> 
         ("nabi_pairs", (|s: &mut crate::src::EnumSrc| crate::native_abi::abi_pairs(s)) as fn(&mut crate::src::EnumSrc)),
         // n(nabi_more, "C09,C10", "savefile_abi_exportable output for &str / String / &[T] / Vec / Result / Option / &mut dyn FnMut arguments and returns; FlexBuffer (arguments beyond the inline buffer); AbiConnection::analyze_and_create (method matching by name)", "4 caller/implementation combinations whose traits list the methods in different orders x String lengths 0..70000 x slice lengths 0..5000 x small-scope bytes");
         ("nabi_more", (|s: &mut crate::src::EnumSrc| crate::native_abi::abi_more(s)) as fn(&mut crate::src::EnumSrc)),
+        // n(nabi_nested, "C09,C10", "savefile_abi_exportable output for Box<dyn Trait> arguments and returns (nested connections, get_definition of nested traits at the negotiated version); AbiConnection::analyze_and_create (roles of caller and implementation definitions); Drop for AbiConnection; abi_entry_light panic path", "3 caller/implementation version combinations (older caller with newer implementation is refused by design for an extended callback interface) x 3 scenarios x small-scope values");
+        ("nabi_nested", (|s: &mut crate::src::EnumSrc| crate::native_abi::abi_nested(s)) as fn(&mut crate::src::EnumSrc)),
         // n(nabi_wide, "C09,C11", "AbiConnection::analyze_and_create (by-reference mask); savefile_abi_exportable output for a 40-argument method", "one 40-argument method; one argument and one string length vary");
         ("nabi_wide", (|s: &mut crate::src::EnumSrc| crate::native_abi::abi_wide(s)) as fn(&mut crate::src::EnumSrc)),
         // n(nabi_incompatible, "C10", "AbiConnection::analyze_and_create (argument count, argument type, return type checks)", "3 incompatible signature pairs and the identical pair");
@@ -71,8 +75,8 @@ fn native_misc_registry0() -> Vec<(&'static str, fn(&mut crate::src::EnumSrc))> 
         ("nledger_files", (|s: &mut crate::src::EnumSrc| crate::native_abi::ledger_files(s)) as fn(&mut crate::src::EnumSrc)),
         // n(nmal_library, "C06", "Deserialize for String, Vec<T>, HashMap, BTreeMap, Option, VecDeque, BinaryHeap, BTreeSet, HashSet, Box<[T]>, Arc<[T]>, Arc<str>, ArrayVec, SmallVec, BitVec, tuples, char, bool, Result, IndexMap, IndexSet, IpAddr, Duration; Deserializer::read_string; regular_deserialize_vec", "35 valid encodings of small values, each with: every single-byte replacement by one of 6 values (length-like 8-byte fields: low byte only, 5 values), every truncation, 1-2 appended bytes");
         ("nmal_library", (|s: &mut crate::src::EnumSrc| crate::native_misc::malformed_library(s)) as fn(&mut crate::src::EnumSrc)),
-        // n(nmal_bitvec, "C06", "<bit_vec::BitVec as Deserialize>::deserialize", "declared bit counts from the small u64 domain over a 4-byte storage");
-        ("nmal_bitvec", (|s: &mut crate::src::EnumSrc| crate::collections::mal_bitvec_len(s)) as fn(&mut crate::src::EnumSrc)),
+        // n(nmal_bitvec, "C06", "<bit_vec::BitVec as Deserialize>::deserialize", "declared bit counts from the small u64 domain over storages of 4..8 bytes");
+        ("nmal_bitvec", (|s: &mut crate::src::EnumSrc| crate::collections::mal_bitvec_all(s)) as fn(&mut crate::src::EnumSrc)),
         // n(nschema_library2, "C12", "hand-written WithSchema impls: Rc, Arc, Cow, BinaryHeap, HashSet, char, atomics, Range, SystemTime, IpAddr, PathBuf, 1-tuples, Cell, RefCell, Mutex, Arc<str>, Arc<[T]>, Box<[T]>, ArrayVec, ArrayString, SmallVec, IndexMap, IndexSet, nested Option, nested arrays, HashMap, i128, f64, isize, Canary1, PhantomData", "34 type shapes, one small-scope byte varied");
         ("nschema_library2", (|s: &mut crate::src::EnumSrc| crate::native_misc::schema_library2(s)) as fn(&mut crate::src::EnumSrc)),
         // n(pairs_diff, "C05,C13,C15", "diff_schema; diff_enum; diff_fields; diff_primitive", "pairs of one-variant enums with <= 2 primitive fields; discriminants/widths from small domains");
